@@ -32,6 +32,9 @@ class DistinguisherMixin(abc.ABC):
         if not isinstance(data, _np.ndarray):
             raise TypeError(f'data must be numpy ndarray, not {type(data)}.')
 
+        if traces.ndim != 2:
+            raise ValueError(f'traces must be a 2 dimensions array, not {traces.ndim} dimensions.')
+
         if traces.shape[0] != data.shape[0]:
             raise ValueError(f'traces and data must have the same first dimension, not {traces.shape[0]} for traces and {data.shape[0]} for data.')
 
